@@ -20,6 +20,9 @@ Theorem C13_result_structured c s r s' : step c s (EResult r) = Some s' ->
   | TTryForEach, _ => False
   | TCollect, RVec items => length items = length (works s)
   | TCollect, _ => False
+  | TCollectRes, RVec items => residual s = None /\ length items = length (works s)
+  | TCollectRes, RErrV e => residual s = Some e
+  | TCollectRes, _ => False
   end.
 Proof. exact (C13_structured c s r s'). Qed.
 (* at most once: the log of closure invocations (stage, item) of an accepted run has no duplicates *)
